@@ -44,6 +44,7 @@ RULE = (
     ' Round 10: `traffic` (that task handles a message that changes nothing every `traffic` virtual seconds while the deadlines are checked).'
     ' Round 12: `mutate=clear`; `eager_tasks`; `between_edit`; deadline checks re-read while a save is rewriting the file.'
     ' Round 13: `file_name`; `threads` kind (real worker threads, off the virtual loop).'
+    ' Round 14: MQTT goodbye faults (`disconnect-oserror`, `body+disconnect-oserror`, `disconnect-mqtterror`, `disconnect-hang` on the mqtt kind).'
 )
 ASSUMPTIONS = [
     "on the virtual loop threads are replaced by an inline executor: outcomes are the same at file-operation granularity; thread races are only explored by the three `threads` cases (real loop, real worker threads, a registry that is slow to read off the loop thread)",
